@@ -36,6 +36,7 @@ fn main() {
             let src: Value = serde_json::from_str(&s).expect("json");
             match job.as_str() {
                 "c01" | "c12" | "c15" => props::stream::replay(job, &src, outdir),
+                "c14" | "c16" => props::tok::replay(job, &src, outdir),
                 _ => { eprintln!("unknown job {job}"); std::process::exit(2); }
             }
         }
@@ -49,6 +50,8 @@ fn main() {
                 "c01" => props::stream::job_c01(outdir, tier, seed),
                 "c12" => props::stream::job_c12(outdir, tier, seed),
                 "c15" => props::stream::job_c15(outdir, tier, seed),
+                "c14" => props::tok::job_c14(outdir, tier, seed),
+                "c16" => props::tok::job_c16(outdir, tier, seed),
                 _ => { eprintln!("unknown job {job}"); std::process::exit(2); }
             }
         }
